@@ -19,6 +19,7 @@
 package staticfiles
 
 import (
+	"io"
 	"math/rand"
 	"net/http"
 	"os"
@@ -214,6 +215,8 @@ func (fs FileServer) serveFile(w http.ResponseWriter, r *http.Request) (int, err
 		w.Header().Add("Vary", "Accept-Encoding")
 		w.Header().Set("Content-Encoding", encoding.name)
 		w.Header().Set("Content-Length", strconv.FormatInt(encodedFileInfo.Size(), 10))
+		// (ServeContent may still answer with something else than the file)
+		w = &encodedFileWriter{ResponseWriter: w}
 		break
 	}
 
@@ -230,6 +233,40 @@ func (fs FileServer) serveFile(w http.ResponseWriter, r *http.Request) (int, err
 	http.ServeContent(w, r, d.Name(), d.ModTime(), f)
 
 	return http.StatusOK, nil
+}
+
+// encodedFileWriter is the ResponseWriter handed to http.ServeContent for a
+// precompressed copy of a file. The copy's Content-Encoding and
+// Content-Length are set before ServeContent evaluates the request's
+// preconditions and range: a response that does not carry the file (412, 416)
+// must lose them again, or it is labelled with a coding that was not applied
+// to its body and announces a length it does not have.
+type encodedFileWriter struct {
+	http.ResponseWriter
+	wroteHeader bool
+}
+
+func (w *encodedFileWriter) WriteHeader(code int) {
+	if !w.wroteHeader && code != http.StatusOK && code != http.StatusPartialContent {
+		w.Header().Del("Content-Encoding")
+		w.Header().Del("Content-Length")
+	}
+	w.wroteHeader = true
+	w.ResponseWriter.WriteHeader(code)
+}
+
+func (w *encodedFileWriter) Write(b []byte) (int, error) {
+	w.wroteHeader = true
+	return w.ResponseWriter.Write(b)
+}
+
+// ReadFrom keeps the fast path of the underlying writer, if it has one.
+func (w *encodedFileWriter) ReadFrom(r io.Reader) (int64, error) {
+	w.wroteHeader = true
+	if rf, ok := w.ResponseWriter.(io.ReaderFrom); ok {
+		return rf.ReadFrom(r)
+	}
+	return io.Copy(struct{ io.Writer }{w.ResponseWriter}, r)
 }
 
 // IsHidden checks if file with FileInfo d is on hide list.
